@@ -4,13 +4,9 @@ claimed list, techniques and texts stay consistent). Run after adding a property
 import json, subprocess
 
 BASE_TECH = "explicit-state exploration of the real code in lock-step with a reference model: "
-CHECKS = {
- "C01": dict(
-   technique=BASE_TECH + "complete one-step sweep of all ordered operand pairs (n<=3; n=4 thorough) x 28 operator forms, plus an enumerated table alphabet for n=4..14",
-   text="Every ordered pair of n-variable functions for n<=3 (quick) and n=4 (thorough, 2^32 pairs) is pushed through all 28 syntactic operator forms of both types and compared, assignment by assignment, with the pointwise model; for n up to 14 the pairs come from a finite, fully enumerated alphabet (named functions, all weight-1/2 tables and complements, word patterns with one-word deviations). Complete below the bound, bounded above it; this is the right level because the operators are pure one-step functions, so a complete one-step sweep from every state is an inductive argument for all histories.",
-   note="Trusted: the 60-line pointwise model (model/tt.rs) and the block view <-> value() correspondence (itself checked). For n>=5 only the enumerated alphabet is covered.",
-   design="§4 C01"),
-}
+CHECKS = json.load(open("/verif/manifest_checks.json"))
+for _c in CHECKS.values():
+    _c["technique"] = _c["technique"].replace("{BASE}", BASE_TECH)
 NOT_YET = "check not built yet in this session (work in progress; see DESIGN.md for the planned exploration)"
 
 props = [json.loads(l)["id"] for l in open("/verif/properties.jsonl")]
